@@ -152,10 +152,12 @@ CHECKS = {
         "quick": [
             plain("regress", "^TestRegressC07"),
             rapid("context", "^TestC07Context$", 4000, 4),
+            rapid("slogtree", "^TestC07Slog$", 3000, 2),
         ],
         "thorough": [
             plain("regress", "^TestRegressC07"),
             rapid("context", "^TestC07Context$", 80000, 16, timeout=3000),
+            rapid("slogtree", "^TestC07Slog$", 40000, 8, timeout=3000),
         ],
     },
     "C08": {
@@ -312,7 +314,7 @@ RULES = {
     "C06": "cases = configurations drawn from the product core {JSON over a 1 MiB/1 h BufferedWriteSyncer over a recording sink, tee with observer in either order, no-op, sampler that drops everything, level-increased} x threshold -1..7 x development on/off x hook {default, nil, WriteThenNoop, WriteThenGoexit, custom recording} x level {DPanic, Panic, Fatal} x every front end (Logger methods, Log, Check+Write, all Sugar variants, NewStdLogAt Print/Printf/Println/Output, RedirectStdLogAt, zapgrpc Fatal*, globals L/S; completeness checked by reflection); a deterministic sweep of 5130 configurations; child processes re-executing the test binary with the real default actions, a real file and a buffered sink. Non-trivial = entry disabled/no-op/sampled-out, nil or no-op hook, or enabled entry behind the buffer. Distinct = distinct configurations. Since session 3: failing destinations (sink write/sync errors, failing core before/after), unbuffered core, ordinary entries logged before the terminal one, other members of the logger family derived with different hooks, hooks that log before reading their entry, and a gate job that parks one Sync inside the sink while the terminal entry is logged.",
     "C05": "cases = core-composition trees (depth <= 4, tees of 0-3 branches) of observer and JSON IO leaves under tee / increase-level / hooks / pass-all sampler / lazy-with / With wrappers, each enabler an arbitrary subset of all 256 level values (monotone, non-monotone, empty) or a shared AtomicLevel; then a rapid state-machine history: log at any of the 256 levels through Log, Check+Write, level methods, Sugar Log/Logw/Logf/Logln, zapgrpc, slog handler; SetLevel on a shared AtomicLevel to any value; derive children (With, Named, WithLazy, WithOptions(IncreaseLevel/Hooks)); read Enabled for all 256 values, Logger.Level, LevelOf, gRPC V, slog Enabled. Reference model written from the statement decides deliveries, hook calls and marshaling counts after every op. Non-trivial = tree depth >= 2 with a tee whose branches differ in enablement for the logged level or a hook behind a tee, or an AtomicLevel change between two logs. Distinct = distinct (tree shape with enabler kinds, number of derived loggers, class flags). Since session 3: std-log bridge, zapio.Writer and sugared level methods as front ends.",
     "C08": "cases = metamorphic: a probe call P (generated EncoderConfig, JSON or console, With context, field tree with failing members, any level incl. Panic/Fatal with returning hooks, caller+stack on/off, call depth 0/3/70) issued from one source line before and after a generated history H (1-14 ops on OTHER loggers: logs of very different sizes, namespaces left open, reflected values, error arrays, deep stack captures, terminal levels with returning hooks, encoder clones, double GC, pool poisoning with a sentinel through internal/bufferpool), after GC, after H again; concurrent variant with 2-6 goroutines running histories while P is observed. Oracle = byte-identical output and identical side effects (sink writes, terminal hook and entry hook counts); sentinel never visible. Non-trivial = H uses at least one pool and contains a buffer > 1KiB. Distinct = distinct (probe shape, multiset of history op kinds, probe field kinds). Since session 3: history ops with failing sinks, unencodable reflected values and panicking user marshalers; probe may derive a With child per call; terminal hooks must be handed P's own entry; phase 'GC, history, P'; sibling custom reflected encoders.",
-    "C07": "cases = rapid state machine over a growing tree of loggers: derive from a random node by With / WithLazy / Named / WithOptions(Fields) / Sugar / Desugar (sugared equivalents included), fields incl. namespaces, Spec values and objects backed by a marshaler the machine mutates between steps; log through random nodes; GC; finally log through every node in a drawn order; over 10 core compositions (JSON, console, observer, tees, sampler, hooked, level-increased, lazy, all combined). Model = per-node ordered path fields with explicit evaluation time (With: at derivation; WithLazy: at first use of the node or of any descendant core). Non-trivial = a log through a node whose parent has context and >= 2 children after >= 3 derivations, or a lazy node pending while its marshaler was mutated. Distinct = distinct (core kind, derivation tree shape).",
+    "C07": "cases = rapid state machine over a growing tree of loggers: derive from a random node by With / WithLazy / Named / WithOptions(Fields) / Sugar / Desugar (sugared equivalents included), fields incl. namespaces, Spec values and objects backed by a marshaler the machine mutates between steps; log through random nodes; GC; finally log through every node in a drawn order; over 10 core compositions (JSON, console, observer, tees, sampler, hooked, level-increased, lazy, all combined). Model = per-node ordered path fields with explicit evaluation time (With: at derivation; WithLazy: at first use of the node or of any descendant core). Non-trivial = a log through a node whose parent has context and >= 2 children after >= 3 derivations, or a lazy node pending while its marshaler was mutated. Distinct = distinct (core kind, derivation tree shape). Job slogtree: the same state machine over exp/zapslog handlers (WithAttrs incl. lists made only of attributes a handler must ignore, WithGroup incl. the empty name, logging through random handlers between derivations, 9 core compositions incl. a core that ends in an open namespace); model = the slog.Handler nesting rules shared with C18.",
     "C03": "cases = one row per exported constructor of field.go/array.go/error.go/exp/zapfield (completeness checked against the parsed source at run time) with full-range values and boundary tables, through the value, pointer, slice and zap.Any routes; field lists with nested marshalers; values that zap.Any does not special-case. Oracle = independent recording encoder (exact value, bits, instant+zone, byte-identical slices, explicit null, no call for nil errors), Any vs typed constructor agreement, Equals laws. Non-trivial = boundary/extreme value, pointer, slice, nil pointer, time or Any route. Distinct = distinct (constructor kind, value class, ptr, any) resp. kind multisets. excluded_known counts reflexivity assertions skipped for K1 inputs. Since session 3: every slice handed to a constructor is snapshotted and must be unchanged after AddTo; values implementing several of ObjectMarshaler/ArrayMarshaler/error/Stringer (job anymulti).",
     "C01": "cases = EncoderConfig (keys empty/hostile/duplicate; built-in, nil, no-op and layout sub-encoders; line endings) x Entry (any int8 level, hostile zones, caller, stack) x 0-3 With rounds x call-site fields from typed Spec trees (all constructor families, zap.Any routing, nesting depth <= 3, failing marshalers, panicking/nil stringers and errors, unencodable reflected values). Non-trivial = has a nested marshaler, namespace, failing member, non-empty With context, nil/no-op/layout sub-encoder or hostile key. Distinct = distinct (config shape, field-kind multiset, depth, fault count, With rounds). Since session 3: custom NewReflectedEncoder closures (HTML escaping on/off from one function literal, and one that has written partial output when it fails), caller paths of every short shape.",
     "C02": "cases = as C01 with built-in/nil/no-op sub-encoders (D3), each Spec tree carrying its expected ordered tree; plus single-kind scalar batches over full ranges. Non-trivial = extreme numeric (NaN/Inf/uint64>2^63/min-max), invalid UTF-8, nesting depth >= 2 or a namespace inside a nested object (scalar job: time/duration/complex/float32 or extreme). Distinct = distinct (config shape, kind multiset, depth) resp. (kind, time encoder, duration encoder, ptr, any). Since session 3: whole-number floats around 2^31/2^32/2^53/2^63/2^64, powers of two and ten; custom reflected encoders; caller paths of every short shape.",
